@@ -513,6 +513,7 @@ func cmdReload(args []string) error {
 	for i := range rlRestartEdits {
 		rlReloadCaseWith(r, 1000+i, dir, emit, i)
 	}
+	rlDispatcherRestartSweep(dir, emit)
 	for c := 0; c < *nc/2; c++ {
 		rlRequestCase(r, c, dir, emit)
 	}
@@ -545,6 +546,129 @@ var rlRestartEdits = []struct{ name, pull, top, admin string }{
 	{"delivered_retention", "", "delivered_retention {\n  max_age 1h\n}\n", ""},
 	{"dlq_retention", "", "dlq_retention {\n  max_age 2d\n}\n", ""},
 	{"observability", "", "observability {\n  access_log off\n}\n", ""},
+}
+
+// The push dispatcher (targets, retry, timeout, concurrency, signing, egress policy) is built once at start: a reload
+// that changes any of it cannot be applied and must be refused. Every edit below changes exactly one such value that is
+// present before and after (the additive sweep above only adds settings).
+const rlDispatcherBase = `pull_api {
+  auth token raw:t
+}
+secrets {
+  secret "D1" {
+    value raw:dk1
+    valid_from "2020-01-01T00:00:00Z"
+    valid_until "2031-01-01T00:00:00Z"
+  }
+  secret "D2" {
+    value raw:dk2
+    valid_from "2021-01-01T00:00:00Z"
+    valid_until "2032-01-01T00:00:00Z"
+  }
+}
+defaults {
+  egress {
+    allow "*.example.com"
+    deny "169.254.0.0/16"
+    https_only off
+    redirects off
+    dns_rebind_protection on
+  }
+  deliver {
+    retry exponential max 8 base 2s cap 2m jitter 0.2
+    timeout 10s
+    concurrency 20
+  }
+}
+/p {
+  pull { path /pull/p }
+}
+/d {
+  deliver_concurrency 5
+  deliver "http://t1.example.com/a" {
+    retry exponential max 3 base 1s cap 1m jitter 0.1
+    timeout 4s
+    sign hmac secret_ref "D1"
+    sign hmac secret_ref "D2"
+    sign secret_selection newest_valid
+    sign signature_header "X-Sig"
+    sign timestamp_header "X-Ts"
+  }
+  deliver "http://t2.example.com/b" {
+    timeout 2s
+  }
+}
+/e {
+  deliver "http://t3.example.com/c" {
+  }
+}
+`
+
+var rlDispatcherEdits = []struct{ name, from, to string }{
+	{"deliver.url", `"http://t1.example.com/a"`, `"http://t1.example.com/a2"`},
+	{"deliver.timeout", "timeout 4s", "timeout 5s"},
+	{"deliver.retry.max", "max 3 base 1s", "max 4 base 1s"},
+	{"deliver.retry.base", "base 1s cap 1m", "base 3s cap 1m"},
+	{"deliver.retry.cap", "cap 1m jitter 0.1", "cap 5m jitter 0.1"},
+	{"deliver.retry.jitter", "jitter 0.1", "jitter 0.3"},
+	{"deliver.sign.secret_ref removed", "    sign hmac secret_ref \"D2\"\n", ""},
+	{"deliver.sign.secret_ref order", "    sign hmac secret_ref \"D1\"\n    sign hmac secret_ref \"D2\"\n", "    sign hmac secret_ref \"D2\"\n    sign hmac secret_ref \"D1\"\n"},
+	{"deliver.sign.secret_selection", "newest_valid", "oldest_valid"},
+	{"deliver.sign.signature_header", `"X-Sig"`, `"X-Sig2"`},
+	{"deliver.sign.timestamp_header", `"X-Ts"`, `"X-Ts2"`},
+	{"signing secret valid_until moved earlier", `valid_until "2031-01-01T00:00:00Z"`, `valid_until "2030-06-01T00:00:00Z"`},
+	{"signing secret valid_until moved later", `valid_until "2032-01-01T00:00:00Z"`, `valid_until "2033-01-01T00:00:00Z"`},
+	{"signing secret valid_until removed", "    valid_until \"2031-01-01T00:00:00Z\"\n", ""},
+	{"signing secret valid_from moved", `valid_from "2021-01-01T00:00:00Z"`, `valid_from "2021-06-01T00:00:00Z"`},
+	{"signing secret value", "value raw:dk1", "value raw:dk1x"},
+	{"route.deliver_concurrency", "deliver_concurrency 5", "deliver_concurrency 6"},
+	{"second target removed", "  deliver \"http://t2.example.com/b\" {\n    timeout 2s\n  }\n", ""},
+	{"second target timeout", "timeout 2s", "timeout 3s"},
+	{"defaults.deliver.timeout", "timeout 10s", "timeout 11s"},
+	{"defaults.deliver.retry", "max 8 base 2s", "max 9 base 2s"},
+	{"defaults.deliver.concurrency", "concurrency 20", "concurrency 21"},
+	{"defaults.egress.allow", `allow "*.example.com"`, `allow "*.example.org"`},
+	{"defaults.egress.allow added", "    allow \"*.example.com\"\n", "    allow \"*.example.com\"\n    allow \"other.example.net\"\n"},
+	{"defaults.egress.deny", `deny "169.254.0.0/16"`, `deny "169.254.0.0/17"`},
+	{"defaults.egress.redirects", "redirects off", "redirects on"},
+	{"defaults.egress.dns_rebind_protection", "dns_rebind_protection on", "dns_rebind_protection off"},
+	{"deliver route removed (not the last)", "/e {\n  deliver \"http://t3.example.com/c\" {\n  }\n}\n", ""},
+}
+
+func rlDispatcherRestartSweep(dir string, emit func(interface{})) {
+	cfgPath := filepath.Join(dir, "Hookaidofile.disp")
+	defer os.Remove(cfgPath)
+	if _, err := compileText(rlDispatcherBase); err != nil {
+		emit(map[string]interface{}{"k": "cfgerror", "stage": "dispatcher-base", "err": err.Error(), "text": rlDispatcherBase})
+		return
+	}
+	// control: the same configuration with an edit that IS applied live (a pull route's path) reloads
+	if rt, err := newRlRuntime(rlDispatcherBase); err == nil {
+		_ = os.WriteFile(cfgPath, []byte(strings.Replace(rlDispatcherBase, "path /pull/p", "path /pull/p2", 1)), 0o600)
+		if !rt.Reload(cfgPath) {
+			emit(map[string]interface{}{"k": "cfgerror", "stage": "dispatcher-control", "err": "a live-reloadable edit of the base configuration was refused", "text": rlDispatcherBase})
+			return
+		}
+	}
+	for i, e := range rlDispatcherEdits {
+		if strings.Count(rlDispatcherBase, e.from) != 1 {
+			emit(map[string]interface{}{"k": "cfgerror", "stage": "dispatcher-edit:" + e.name, "err": "edit does not apply exactly once", "text": e.from})
+			continue
+		}
+		newText := strings.Replace(rlDispatcherBase, e.from, e.to, 1)
+		if _, err := compileText(newText); err != nil {
+			emit(map[string]interface{}{"k": "cfgerror", "stage": "dispatcher-edit:" + e.name, "err": err.Error(), "text": newText})
+			continue
+		}
+		rt, err := newRlRuntime(rlDispatcherBase)
+		if err != nil {
+			continue
+		}
+		_ = os.WriteFile(cfgPath, []byte(newText), 0o600)
+		ok := rt.Reload(cfgPath)
+		emit(map[string]interface{}{"k": "reload", "case": 2000 + i, "fail": "restart", "restartEdit": e.name, "oldText": rlDispatcherBase, "newText": newText,
+			"probes": []string{}, "before": []string{}, "after": []string{}, "n1": []string{}, "n2": []string{}, "ok": ok})
+	}
 }
 
 var rlFailKinds = []string{"none", "none", "none", "none", "unreadable", "parse", "compile", "secret", "restart"}
